@@ -115,19 +115,23 @@ theorem mkList_nf {cs : List Expr} (b e : Int) (h1 : flattenAll cs = cs) (h2 : c
   | _ :: _ :: _, _ => rfl
 
 /-- What `Q` allows under an ellipsis has a non-zero number of dimensions. -/
-theorem ndim_operand {inBr : Bool} {i : Expr} (h1 : (i.isAxis || i.isFlat || i.isBrackets || i.isConcat) = true)
-    (h2 : Q inBr false i = true) : (i.ndim != some 0) = true := by
-  cases i with
-  | axis => simp [Expr.ndim]
-  | flat => simp [Expr.ndim]
-  | concat => simp [Expr.ndim]
-  | brackets j b e =>
+theorem ndim_operand {inBr : Bool} : ∀ {i : Expr},
+    (i.isAxis || i.isFlat || i.isBrackets || i.isConcat || i.isEllipsis) = true → Q inBr false i = true →
+      (i.ndim != some 0) = true
+  | .axis .., _, _ => by simp [Expr.ndim]
+  | .flat .., _, _ => by simp [Expr.ndim]
+  | .concat .., _, _ => by simp [Expr.ndim]
+  | .brackets j b e, _, h2 => by
     simp only [Q, Bool.and_eq_true] at h2
     simpa [Expr.ndim] using h2.1.2
-  | ellipsis => simp [Expr.isAxis, Expr.isFlat, Expr.isBrackets, Expr.isConcat] at h1
-  | list => simp [Expr.isAxis, Expr.isFlat, Expr.isBrackets, Expr.isConcat] at h1
-  | args => simp [Expr.isAxis, Expr.isFlat, Expr.isBrackets, Expr.isConcat] at h1
-  | op => simp [Expr.isAxis, Expr.isFlat, Expr.isBrackets, Expr.isConcat] at h1
+  | .ellipsis j d b e, _, h2 => by
+    simp only [Q, Bool.and_eq_true] at h2
+    have := ndim_operand h2.1 h2.2
+    have hj : (j.ndim == some 0) = false := by simpa using this
+    simp [Expr.ndim, hj]
+  | .list .., h1, _ => by simp [Expr.isAxis, Expr.isFlat, Expr.isBrackets, Expr.isConcat, Expr.isEllipsis] at h1
+  | .args .., h1, _ => by simp [Expr.isAxis, Expr.isFlat, Expr.isBrackets, Expr.isConcat, Expr.isEllipsis] at h1
+  | .op .., h1, _ => by simp [Expr.isAxis, Expr.isFlat, Expr.isBrackets, Expr.isConcat, Expr.isEllipsis] at h1
 
 /-! ### `moveUp` on normal forms -/
 
